@@ -7,6 +7,7 @@ import (
 	"encoding/hex"
 	"fmt"
 	"sort"
+	"sync"
 	"testing"
 
 	"github.com/btcsuite/btcd/btcec"
@@ -15,10 +16,12 @@ import (
 	"github.com/btcsuite/btcd/wire"
 	"github.com/btcsuite/btcutil"
 	"github.com/polynetwork/poly/common"
+	"github.com/polynetwork/poly/core/store/overlaydb"
 	"github.com/polynetwork/poly/native/service/cross_chain_manager/btc"
 	crosscommon "github.com/polynetwork/poly/native/service/cross_chain_manager/common"
 	"github.com/polynetwork/poly/native/service/governance/side_chain_manager"
 	"github.com/polynetwork/poly/native/service/utils"
+	"github.com/polynetwork/poly/native/storage"
 	"pgregory.net/rapid"
 
 	"verif/harness/ev"
@@ -30,7 +33,7 @@ func TestMain(m *testing.M) { ev.Main(m) }
 // ---------------------------------------------------------------------------------------------
 // C26 BTC coin selection conserves UTXO value
 //
-// World: the real native runtime (world.New); the BTC side chain (id 1, testnet3) is registered and
+// World: the real native runtime (world.New, reused through a snapshot, see freshWorld); the BTC side chain (id 1, testnet3) is registered and
 // approved, an m-of-n redeem script is bound to a contract (registerRedeem) and its fee rate /
 // minimum change are installed with setBtcTxParam -- all through the real contracts with real
 // secp256k1 signatures, so only parameter values the contracts accept are explored (fee rate >= 1,
@@ -103,7 +106,7 @@ func genC26(t *rapid.T) c26Case {
 	c := c26Case{}
 	c.N = rapid.IntRange(1, 7).Draw(t, "n")
 	c.M = rapid.IntRange(1, c.N).Draw(t, "m")
-	c.FeeRate = rapid.OneOf(rapid.Uint64Range(1, 500), rapid.Uint64Range(1, 20), rapid.SampledFrom([]uint64{1, 2, 10, 50, 500})).Draw(t, "feeRate")
+	c.FeeRate = rapid.OneOf(rapid.Uint64Range(1, 500), rapid.Uint64Range(1, 20), rapid.Uint64Range(1, 5), rapid.SampledFrom([]uint64{1, 2, 10, 50, 500})).Draw(t, "feeRate")
 	c.MinChange = rapid.OneOf(rapid.SampledFrom([]uint64{2000, 2001, 10000, 100000, 1000000}), logUniform(2000, 1000000)).Draw(t, "minChange")
 
 	regime := rapid.SampledFrom([]string{"mixed", "mixed", "cluster", "dust-withdrawal", "fee-limit", "big-and-small"}).Draw(t, "regime")
@@ -116,7 +119,7 @@ func genC26(t *rapid.T) c26Case {
 	}
 	kindMode := rapid.SampledFrom([]string{"any", "any", "witness-only", "big-p2sh"}).Draw(t, "kindmode")
 	minN := 0
-	if ev.Thorough() && rapid.IntRange(0, 599).Draw(t, "huge") == 0 {
+	if ev.Thorough() && rapid.IntRange(0, 2999).Draw(t, "huge") == 0 {
 		minN, maxN, kindMode = 24, 40, "witness-only"
 	}
 	nU := rapid.IntRange(minN, maxN).Draw(t, "nutxo")
@@ -178,7 +181,7 @@ func genC26(t *rapid.T) c26Case {
 	}
 
 	genAmount := func(label string) int64 {
-		kinds := []string{"log", "subset", "subset-short", "small", "above-total", "total", "quarter", "fee-window"}
+		kinds := []string{"log", "subset", "subset", "subset-short", "subset-short", "small", "above-total", "total", "quarter", "quarter", "fee-window"}
 		switch regime {
 		case "dust-withdrawal":
 			kinds = append(kinds, "below-minchange", "below-minchange", "below-minchange", "below-minchange")
@@ -344,22 +347,69 @@ func must(ctx *ev.Ctx, what string, r world.Result) {
 	}
 }
 
-// setupWorld registers the chain, the redeem script and the tx parameters through the contracts.
-func setupWorld(ctx *ev.Ctx, c c26Case, r *redeemInfo) *world.World {
+// World reuse. world.New allocates two 4 MiB buffers (mem LevelDB + block overlay); zeroing them per
+// case dominated the run time. The store below the overlay is never written by a world, so the
+// harness builds ONE base world per process (genesis + the case-independent BTC side-chain
+// registration and approval, all through the real contracts), snapshots the block overlay, and gives
+// every case a fresh world made of the shared read-only store, the pooled overlay reset and
+// re-filled from the snapshot, and a new transaction cache. Cases run sequentially in a process.
+var (
+	baseOnce sync.Once
+	baseW    *world.World
+	baseSnap [][2][]byte
+	pooledOv *overlaydb.OverlayDB
+	baseErr  string
+)
+
+func buildBase() {
 	w := world.New(1, world.Opts{})
 	owner := world.Acct(20).Address
 	val := world.Acct(0).Address
 	scm := utils.SideChainManagerContractAddress
-
 	rp := &side_chain_manager.RegisterSideChainParam{Address: owner, ChainId: btcChainID, Router: utils.BTC_ROUTER, Name: "btc",
 		BlocksToWait: 1, CCMCAddress: le64(uint64(utils.TyTestnet3))}
 	sink := common.NewZeroCopySink(nil)
 	rp.Serialization(sink)
-	must(ctx, "registerSideChain", w.Invoke(scm, side_chain_manager.REGISTER_SIDE_CHAIN, sink.Bytes(), []common.Address{owner}))
+	if r := w.Invoke(scm, side_chain_manager.REGISTER_SIDE_CHAIN, sink.Bytes(), []common.Address{owner}); !r.OK() {
+		baseErr = fmt.Sprintf("registerSideChain: %v %s", r.Err, r.Panic)
+		return
+	}
 	ap := &side_chain_manager.ChainidParam{Chainid: btcChainID, Address: val}
 	sink = common.NewZeroCopySink(nil)
 	ap.Serialization(sink)
-	must(ctx, "approveRegisterSideChain", w.Invoke(scm, side_chain_manager.APPROVE_REGISTER_SIDE_CHAIN, sink.Bytes(), []common.Address{val}))
+	if r := w.Invoke(scm, side_chain_manager.APPROVE_REGISTER_SIDE_CHAIN, sink.Bytes(), []common.Address{val}); !r.OK() {
+		baseErr = fmt.Sprintf("approveRegisterSideChain: %v %s", r.Err, r.Panic)
+		return
+	}
+	sc, err := side_chain_manager.GetSideChain(w.Service(), btcChainID)
+	if err != nil || sc == nil || sc.Router != utils.BTC_ROUTER {
+		baseErr = fmt.Sprintf("side chain not registered after approval: %v %v", sc, err)
+		return
+	}
+	baseW = w
+	baseSnap = w.Dump()
+	pooledOv = overlaydb.NewOverlayDB(w.Store)
+}
+
+func freshWorld(ctx *ev.Ctx) *world.World {
+	baseOnce.Do(buildBase)
+	if baseErr != "" {
+		ctx.Failf("harness fixture: %s", baseErr)
+	}
+	world.ResetGlobals(0)
+	pooledOv.Reset()
+	for _, kv := range baseSnap {
+		pooledOv.Put(kv[0], kv[1])
+	}
+	return &world.World{Store: baseW.Store, Overlay: pooledOv, Cache: storage.NewCacheDB(pooledOv), Height: 1, Time: baseW.Time,
+		ChainID: baseW.ChainID, Validators: baseW.Validators}
+}
+
+// setupWorld binds the redeem script and installs the tx parameters through the contracts.
+func setupWorld(ctx *ev.Ctx, c c26Case, r *redeemInfo) *world.World {
+	w := freshWorld(ctx)
+	scm := utils.SideChainManagerContractAddress
+	var sink *common.ZeroCopySink
 
 	// registerRedeem: signatures over hash160(redeem || redeemChain || contract || contractChain || version)
 	msg := append(append(append(append(append([]byte{}, r.script...), le64(btcChainID)...), r.contract...), le64(contractChainID)...), le64(0)...)
